@@ -456,6 +456,53 @@ fn data_label_kinds(rep: &Report) {
     }
 }
 
+/// every two-operand mnemonic x every destination form x an out-of-range immediate (also as OFFSET of a far label):
+/// enumerated, not sampled - a range check dropped from a single production of a single mnemonic must be met.
+/// A (mnemonic, destination) pair exists when the same line with a boundary value is accepted; only those are judged.
+fn constant_grid(rep: &Report) {
+    let two = ["mov", "add", "adc", "sub", "sbb", "cmp", "and", "or", "xor", "test"];
+    let shifts = ["shl", "sal", "shr", "sar", "rol", "ror", "rcl", "rcr"];
+    let d8 = ["al", "ch", "dl", "bh", "byte [bx]", "byte [si,4]", "byte [bp,di]", "byte [bx,si,2]", "byte es[di]", "byte cs[bx,6]", "byte [100]", "byte ss[100]", "byte bv0", "byte es bv0"];
+    let d16 = ["ax", "sp", "di", "bp", "word [bx]", "word [di,4]", "word [bp,si]", "word [bx,di,2]", "word es[si]", "word [200]", "word ds[200]", "word wv2", "word ss wv2"];
+    let prologue = "bv0: db 1\nbv1: db 1\nwv2: dw 1\nwv3: dw 1\npad: db [0,400]\nfar: db 7\n";
+    let wrap = |l: &str| format!("{}start:\nmov cx,1\n{}\nmov bx,2\n", prologue, l);
+    let mut k = 0usize;
+    let mut tried = 0u64;
+    let mut absent = 0u64;
+    for (ops, word_count) in [(&two[..], true), (&shifts[..], false)] {
+        for (mi, m) in ops.iter().enumerate() {
+            for (wide, dests) in [(false, &d8[..]), (true, &d16[..])] {
+                for (di, d) in dests.iter().enumerate() {
+                    // the immediate is as wide as the destination; a shift count is always 0..255
+                    let (lo, hi): (i64, i64) = if !word_count { (0, 255) } else if wide { (-32768, 65535) } else { (-128, 255) };
+                    let mn = if (mi + di) % 3 == 2 { m.to_uppercase() } else { m.to_string() };
+                    let line = |v: &str| format!("{} {}, {}", mn, d, v);
+                    tried += 1;
+                    if accepted(&wrap(&line(&hi.to_string()))).is_err() {
+                        absent += 1;
+                        continue;
+                    }
+                    let pos = format!("{}{}", if word_count { if wide { "imm16" } else { "imm8" } } else { "shift-count" }, if d.contains('[') { "-mem" } else if d.contains(' ') { "-label" } else { "-reg" });
+                    let mut vals: Vec<(&str, String)> = vec![("above", (hi + 1).to_string()), ("above", format!("0x{:x}", hi + 1)), ("far-above", (hi + 45).to_string()), ("far-above", "70000".into()), ("below", (lo - 1).to_string())];
+                    if hi == 255 {
+                        // `far` sits at offset 404
+                        vals.push(("offset-above", "offset far".into()));
+                        vals.push(("far-above", "0x1234".into()));
+                    }
+                    for (which, v) in vals {
+                        let mt = Mutant { class: format!("constant:{}:{}:{}", pos, which, m), text: wrap(&line(&v)) };
+                        judge(rep, &mt, Some(format!("grid{}", k)), k % 40 == 0);
+                        k += 1;
+                    }
+                }
+            }
+        }
+    }
+    rep.count("constant grid: (mnemonic, destination form) pairs tried", tried);
+    rep.count("constant grid: pairs the assembler does not have (boundary value refused; not judged)", absent);
+    rep.floor("constant grid pairs judged", tried - absent, 200);
+}
+
 /// boundary values themselves must stay usable: counted, not judged (acceptance of documented shapes is C10's subject)
 fn boundaries(rep: &Report) {
     let mut refused = 0u64;
@@ -486,6 +533,7 @@ pub fn run(rep: &Report) {
     boundaries(rep);
     offset_constants(rep);
     data_label_kinds(rep);
+    constant_grid(rep);
     let t = rep.thorough();
     let nparents = if t { 4000 } else { 40 };
     let ncore = 12;
@@ -564,4 +612,4 @@ pub fn run(rep: &Report) {
     rep.floor("mutants run through the binary", rep.counter("mutants run through the binary"), 300);
 }
 
-pub const RULE: &str = "valid parents (random well-formed programs of all instruction classes and structured programs; each is first checked to be accepted) receive one defect each: a defective instruction line inserted at a random position of the code (top level or inside a procedure) from 46 templates (a third of them also carried by a macro whose use must be refused) - jump to an undefined / data label (14 jump spellings), call of a code label / data label / unknown name, byte/word data operand or OFFSET naming a code label or an unknown name, mixed operand widths (7 shapes x 10 mnemonics), two memory operands (5 shapes), unsupported instructions (in/out/lds/les/wait/esc/lock/into/iret), interrupt numbers other than 3/10h/21h in three radices, unsupported directives, duplicate code labels, a code label redefining a data label; a macro use carrying two forward jumps of which one target is never defined; duplicate data labels and procedures; every constant position (imm8/imm16 to register, memory, label; logic immediates; displacements of all addressing shapes; direct addresses; shift counts; SET; DB/DW values, fill values and array sizes) pushed one past the upper end, one past the lower end, and far outside in decimal/hex/binary; constants written as OFFSET of a data label placed at offsets 256..65535 in ten 8-bit positions; 'start' removed, spelled 'Start', or made a data label; jumps/calls to, and 'start' as, a label of each of 15 kinds of data definition incl. empty ones; at AST level the definition of a referenced label dropped and a jump retargeted to a data label / undefined name. Oracle: in process Preprocessor::parse is Err with a non-empty message or the replicated driver checks refuse; through the binary (every 8th mutant, and every mutant whose refusal is the driver's job: undefined labels, missing start) there are zero hook records, non-empty output and a clean exit. Distinct = mutation class (incl. position). Undefined jump targets among 257..5000 forward references to a label defined later; two forward jumps out of one macro use. Aftermath: small invalid programs leaning on names that an earlier program (refused inside a macro expansion) defined must still be refused on the clear()ed context.";
+pub const RULE: &str = "valid parents (random well-formed programs of all instruction classes and structured programs; each is first checked to be accepted) receive one defect each: a defective instruction line inserted at a random position of the code (top level or inside a procedure) from 46 templates (a third of them also carried by a macro whose use must be refused) - jump to an undefined / data label (14 jump spellings), call of a code label / data label / unknown name, byte/word data operand or OFFSET naming a code label or an unknown name, mixed operand widths (7 shapes x 10 mnemonics), two memory operands (5 shapes), unsupported instructions (in/out/lds/les/wait/esc/lock/into/iret), interrupt numbers other than 3/10h/21h in three radices, unsupported directives, duplicate code labels, a code label redefining a data label; a macro use carrying two forward jumps of which one target is never defined; duplicate data labels and procedures; every constant position (imm8/imm16 to register, memory, label; logic immediates; displacements of all addressing shapes; direct addresses; shift counts; SET; DB/DW values, fill values and array sizes) pushed one past the upper end, one past the lower end, and far outside in decimal/hex/binary; constants written as OFFSET of a data label placed at offsets 256..65535 in ten 8-bit positions; 'start' removed, spelled 'Start', or made a data label; jumps/calls to, and 'start' as, a label of each of 15 kinds of data definition incl. empty ones; at AST level the definition of a referenced label dropped and a jump retargeted to a data label / undefined name. Oracle: in process Preprocessor::parse is Err with a non-empty message or the replicated driver checks refuse; through the binary (every 8th mutant, and every mutant whose refusal is the driver's job: undefined labels, missing start) there are zero hook records, non-empty output and a clean exit. Distinct = mutation class (incl. position). Constant grid: 10 two-operand mnemonics and 8 shifts x 27 destination forms (registers, every addressing shape with and without segment override, direct addresses, data labels) - wherever the boundary value is accepted, one past either end, far outside (hi+45, 70000, 0x1234) and OFFSET of a label at offset 404 must be refused, enumerated. Undefined jump targets among 257..5000 forward references to a label defined later; two forward jumps out of one macro use. Aftermath: small invalid programs leaning on names that an earlier program (refused inside a macro expansion) defined must still be refused on the clear()ed context.";
